@@ -139,6 +139,32 @@ MUTANTS = [
   "                else:\n                    new_cell.geometry = ('*', CellRef(new_elt_key),\n                                         CellRef(new_elt_key))"),
  # (C05-7, replacing the container's idorigin lookup by `key`, is an
  #  equivalent mutant: containers never carry an idorigin)
+ # ---- C06
+ ('C06-1', 'C06', K + 'Volume/Lattice.py',
+  "                tail = bounds[-1]\n                rest = bounds[:-1]\n                for elem in range(tail[0], tail[1] + 1):\n                    for heads in _indices(rest):\n                        yield heads + [elem]",
+  "                head = bounds[0]\n                rest = bounds[1:]\n                for elem in range(head[0], head[1] + 1):\n                    for tails in _indices(rest):\n                        yield [elem] + tails"),
+ # (C06-2 is an equivalent mutant: the flipped normal and the sign of the
+ #  distance cancel in squareLatticeReciprocalVecs)
+ ('C06-3', 'C06', K + 'Volume/CellConversion.py',
+  "            if universe == cell.universe:\n                new_cell.fillid = None\n                new_cell.materialID = cell.materialID",
+  "            if False:\n                new_cell.fillid = None\n                new_cell.materialID = cell.materialID"),
+ ('C06-4', 'C06', K + 'Volume/Lattice.py',
+  "    return vsum(*(rescale(float(i), vec) for i, vec in zip(index, base_vecs)))",
+  "    return vsum(*(rescale(-float(i), vec) for i, vec in zip(index, base_vecs)))"),
+ ('C06-5', 'C06', K + 'Volume/CellConversion.py',
+  "                new_filltr = compose_transform(new_cell.filltr, trnsf)",
+  "                new_filltr = compose_transform(trnsf, new_cell.filltr)"),
+ ('C06-6', 'C06', K + 'Volume/CellConversion.py',
+  "            if universe == 0:\n                continue\n            transl = latticeVector",
+  "            if universe == 0 and index != (0,) * len(index):\n                continue\n            transl = latticeVector"),
+ ('C06-7', 'C06', K + 'FileHandlers/Parser/ParseMCNPCell.py',
+  "                kws['f_univs'] = [f_univs_arg] * lat_opt.size()",
+  "                kws['f_univs'] = [f_univs_arg] * lat_opt.size()\n                kws['f_bounds'] = lat_opt.__class__([(b[0], b[1]) for b in lat_opt][::-1]) if len(lat_opt) > 1 and lat_opt.size() == lat_opt[0][1] - lat_opt[0][0] + 1 else lat_opt"),
+ # (C06-8 is an equivalent mutant: the flipped normal and the sign of the
+ #  distance cancel in squareLatticeReciprocalVecs)
+ ('C06-9', 'C06', K + 'Volume/CellConversion.py',
+  "            if cell.trcl and not cell.filltr:\n                for trcl in cell.trcl:\n                    new_filltr = compose_transform(trcl, new_filltr)",
+  "            if cell.trcl:\n                for trcl in cell.trcl:\n                    new_filltr = compose_transform(trcl, new_filltr)"),
 ]
 
 
